@@ -42,6 +42,17 @@ pub(crate) mod dummy;
 
 pub(crate) mod manager;
 
+/// Verification hooks: address-book items of the transport manager and the socket-address parsers.
+#[cfg(feature = "verif")]
+pub mod verif {
+    #[cfg(feature = "websocket")]
+    pub use super::common::listener::WebSocketAddress;
+    pub use super::{
+        common::listener::{AddressType, DnsType, GetSocketAddr, TcpAddress},
+        manager::verif::*,
+    };
+}
+
 pub use manager::limits::{ConnectionLimitsConfig, ConnectionLimitsError};
 
 /// Verification hooks: the transport manager and its scripted transport for the external harness.
